@@ -89,6 +89,7 @@ def gen_cases(tier):
         seqs += list(itertools.permutations(SUB10, 3))
     for seq in seqs:
         yield {"views": list(seq)}
+    yield {"cli": True}
 
 
 MERCHANT_SETS = [c for n in (1, 2, 3) for c in itertools.combinations(range(len(HIST)), n)]
@@ -162,7 +163,92 @@ def single_view_membership(fi, mset):
         return f"EXC {type(e).__name__}"
 
 
+def check_cli(case):
+    """View membership as `tally explain --view V` reports it, alone and combined with --category, against the membership `tally up`
+    puts into its report (a merchant is in a view whatever other filters narrow the listing)."""
+    import html.parser
+    import json
+    import os
+    import shutil
+    from mc.core import proc
+    from mc.checks import rules_common as R
+    base = os.path.join(R.scratch(), "c10cli")
+    shutil.rmtree(base, ignore_errors=True)
+    os.makedirs(os.path.join(base, "config"))
+    os.makedirs(os.path.join(base, "data"))
+    rows = ["Date,Description,Amount"]
+    for m in range(1, 7):
+        rows += [f"{m:02d}/05/2025,POWERCO AUTOPAY,{80 + m}.00", f"{m:02d}/09/2025,WATERCO AUTOPAY,30.00"]
+    for m in (1, 2, 3, 4):
+        rows.append(f"{m:02d}/12/2025,CORNER CAFE #12,6.50")
+    for m in (1, 2):
+        rows.append(f"{m:02d}/20/2025,NOODLE BAR DOWNTOWN,23.40")
+    with open(os.path.join(base, "data", "card.csv"), "w") as f:
+        f.write("\n".join(rows) + "\n")
+    cats = {"Power Co": "Bills", "Water Co": "Bills", "Corner Cafe": "Food", "Noodle Bar": "Food"}
+    with open(os.path.join(base, "config", "merchants.rules"), "w") as f:
+        for name, pat in (("Power Co", "POWERCO"), ("Water Co", "WATERCO"), ("Corner Cafe", "CORNER CAFE"), ("Noodle Bar", "NOODLE BAR")):
+            f.write(f'[{name}]\nmatch: contains("{pat}")\ncategory: {cats[name]}\nsubcategory: X\n\n')
+    with open(os.path.join(base, "config", "views.rules"), "w") as f:
+        f.write('half = period("month") * 0.5\n\n[Regular]\nfilter: months >= period("month") * 0.5\n\n[Rare]\nfilter: months < half\n\n[Big]\nfilter: total > 100\n\n[Everything]\nfilter: true\n')
+    with open(os.path.join(base, "config", "settings.yaml"), "w") as f:
+        f.write('year: 2025\nmerchants_file: config/merchants.rules\nviews_file: config/views.rules\ndata_sources:\n  - name: Card\n    file: data/card.csv\n'
+                '    format: "{date:%m/%d/%Y},{description},{amount}"\n')
+    viol, evals = [], 0
+    r = proc.run_cli(["up", "--quiet"], cwd=base)
+    hp = os.path.join(base, "output", "spending_summary.html")
+    members = None
+    if r["exit"] == 0 and os.path.exists(hp):
+        class P(html.parser.HTMLParser):
+            def __init__(self):
+                super().__init__()
+                self.s, self.on, self.buf = [], False, []
+            def handle_starttag(self, tag, attrs):
+                if tag == "script":
+                    self.on, self.buf = True, []
+            def handle_endtag(self, tag):
+                if tag == "script" and self.on:
+                    self.s.append("".join(self.buf)); self.on = False
+            def handle_data(self, d):
+                if self.on:
+                    self.buf.append(d)
+        p = P(); p.feed(open(hp, encoding="utf-8").read())
+        sc = [x for x in p.s if "window.spendingData = " in x]
+        try:
+            data = json.loads(sc[0][sc[0].index("window.spendingData = ") + 22:].strip().rstrip(";"))
+            members = {s["title"]: {m["displayName"] for m in s["merchants"].values()} for s in data["sections"].values()}
+        except Exception:  # noqa
+            members = None
+    if members is None:
+        shutil.rmtree(base, ignore_errors=True)
+        return {"evals": 1, "nontrivial": 0, "outcomes": ["cli-no-report"], "violations": [
+            {"kind": "report-without-views", "detail": {"exit": r["exit"], "stderr_tail": r["stderr"][-300:]}}], "sample_repr": {"cli": True}}
+    # the reference primitives say the same (4 of 6 months: Regular = Power, Water, Corner Cafe; Rare = Noodle Bar)
+    want_ref = {"Regular": {"Power Co", "Water Co", "Corner Cafe"}, "Rare": {"Noodle Bar"}, "Big": {"Power Co", "Water Co"}, "Everything": set(cats)}
+    for v, want in want_ref.items():
+        evals += 1
+        if members.get(v, set()) != want:
+            viol.append({"kind": "membership-differs-from-reference", "detail": {"entry": "tally up (HTML data)", "view": v, "expected": sorted(want), "got": sorted(members.get(v, []))}})
+    for v in want_ref:
+        for extra, keep in (([], None), (["--category", "Food"], "Food"), (["--category", "Bills"], "Bills")):
+            evals += 1
+            e = proc.run_cli(["explain", "--view", v, "--format", "json"] + extra, cwd=base)
+            try:
+                i = e["stdout"].find("{")
+                got = {m["name"] for m in json.loads(e["stdout"][i:])["merchants"]} if i >= 0 else set()
+            except Exception as ex:  # noqa
+                got = f"unreadable explain output: {ex}"
+            want = {m for m in want_ref[v] if keep is None or cats[m] == keep}
+            if got != want:
+                viol.append({"kind": "membership-differs-from-reference", "detail": {"entry": "tally explain --view " + v + " " + " ".join(extra), "expected": sorted(want),
+                                                                                      "got": sorted(got) if isinstance(got, set) else got}})
+    shutil.rmtree(base, ignore_errors=True)
+    return {"evals": evals, "nontrivial": evals, "outcomes": ["cli-views"], "violations": viol[:8], "sample_repr": {"cli": True}}
+
+
 def check_case(case):
+    if case.get("cli"):
+        return check_cli(case)
     seq = tuple(case["views"])
     text = views_text(seq)
     viol, evals, nontrivial = [], 0, 0
